@@ -15,8 +15,11 @@ from tie.framework import TieBroken, g_bool, g_list, g_nat, g_N, g_opt, g_pair, 
 PROP = "C09"
 IMPORTS = "From JV Require Import Lib.Base Model.C09ParserState Spec.C09Spec Corr.C09Judge."
 RULE = ("seeded histories of 1-12 calls over two parsers drawn from: config argument (+ --print_config), int/str options "
-        "(optionally one required), class-typed option Base/SubA/SubB (plain and Callable[[int], Base]), a parse-time link "
-        "into the class' init_args, two sub-commands (optional/required, with their own config argument); calls: "
+        "(optionally one required), class-typed option Base/SubA/SubB (plain and Callable[[int], Base], also given the "
+        "callable non-Base class Fac), a dataclass-typed option d: Optional[Data]; the class / Callable / dataclass options "
+        "either from add_argument or from a signature (add_class_arguments: non-empty per-action sub_add_kwargs); a "
+        "parse-time link into the class' init_args, two sub-commands (optional/required, with their own config argument); "
+        "dict-like sources give class options as class_path + init_args or init_args alone, and d as a partial mapping; calls: "
         "parse_args (valid, invalid value, unknown option, bad print_config flag, --help, --print_config[=flags] before/"
         "after a failure, inside a sub-command, before a --cfg, class help with and without trailing arguments, unknown "
         "sub-command, empty --cfg), parse_object / parse_string / parse_env (valid, invalid, unknown key, missing required, key "
@@ -725,40 +728,46 @@ def shrink(case):
 META = {
     "level_text": (
         "Proof about a state-machine model of the state jsonargparse parsers carry between calls (pending --print_config "
-        "request, stored argv, lazily added --print_shtab action per root parser; parse_kwargs / subclass_arg_parser / "
-        "dump_kwargs context variables and the class-level dict of the class-help action per process), coq/Properties/C09.v: "
-        "C09_guarded_answer_is_fresh_answer / C09_history_independent_guarded — for every variant of the model, ANY carried "
-        "state (hence every history of any length over any number of parsers, failing, help-printing and config-printing "
-        "calls included) and every call inside the guard, the answer is the answer of the same call on fresh parsers in a "
-        "fresh process; the guard excludes exactly three reads of carried state. Each of the three is a defect of the "
-        "pinned tree, proved by witness (C09_print_config_pending_refuted, C09_print_config_broken_refuted, "
-        "C09_lazy_print_shtab_key_refuted, C09_class_help_skip_shared_refuted, C09_full_statement_refuted_on_pinned_tree), "
-        "reproduced on the implementation in every run and listed in known_findings/C09.txt with a small patch each "
-        "(fixes/C09-*.patch). C09_class_needs_missing_repair: after any history a finding class can only be met when the "
-        "corresponding repair is absent (invariant: with the print_config repair no request is pending after any call); "
-        "C09_repaired_history_independent: the model of the tree with the three patches satisfies the full statement with "
-        "no guard. C09_other_parser_untouched: a call never changes what another parser carries itself. "
+        "request, stored argv, lazily added --print_shtab action and the sub_add_kwargs['default'] of a dataclass-typed "
+        "option per root parser; parse_kwargs / subclass_arg_parser / dump_kwargs context variables and the class-level "
+        "dict of the class-help action per process), coq/Properties/C09.v: C09_guarded_answer_is_fresh_answer / "
+        "C09_history_independent_guarded — for every variant of the model, ANY carried state (hence every history of any "
+        "length over any number of parsers, failing, help-printing and config-printing calls included) and every call "
+        "inside the guard, the answer is the answer of the same call on fresh parsers in a fresh process; the guard "
+        "excludes exactly four reads of carried state. Each of the four is a defect of the tree as given, proved by witness "
+        "(C09_print_config_pending_refuted, C09_print_config_broken_refuted, C09_lazy_print_shtab_key_refuted, "
+        "C09_class_help_skip_shared_refuted, C09_dataclass_default_carried_refuted, "
+        "C09_dataclass_default_after_failure_refuted, C09_full_statement_refuted_on_pinned_tree) and reproduced on the "
+        "implementation; three have been fixed in /repo (fix: commits c0605da, dab4460, 449b519), the fourth "
+        "(dataclass-default-carried) is listed open in known_findings/C09.txt with fixes/C09-dataclass-default-carried.patch. "
+        "C09_class_needs_missing_repair: after any history a finding class can only be met when the corresponding repair is "
+        "absent (invariants: with the print_config repair no request is pending after any call, with the dataclass repair "
+        "nothing is ever stored); C09_repaired_history_independent: the model of the tree with the four repairs satisfies "
+        "the full statement with no guard. C09_other_parser_untouched: a call never changes what another parser carries "
+        "itself. "
         "Only exercised by the correspondence run (not proved about the code): that the model is the code. The run executes "
-        "seeded histories of 1-12 calls over two real parsers (config argument, int/str/required options, class-typed and "
-        "Callable-typed options, a parse-time link, optional/required sub-commands) and compares, per step and inside "
-        "Coq, (a) the abstraction of the REAL carried state before and after the step (deep snapshot of every parser's and "
-        "action's __dict__, all jsonargparse ContextVars, mutable module globals and class attributes; anything the model "
-        "does not explain is a disagreement) with the model state, (b) the kind of answer on the re-used parser and on a "
-        "fresh parser built in a pristine forked process with the model's answers, and (c) equality of the two real "
-        "answers (result / ArgumentError text / exit status, stdout, stderr) with equality of the model's answers. The "
-        "values inside an answer are not modelled (the model's answer is the path the call took); their history "
-        "independence is checked only by the fresh-vs-reused comparison of the real answers on the generated histories."),
+        "seeded histories of 1-12 calls over two real parsers (config argument, int/str/required options, class-typed, "
+        "Callable-typed and dataclass-typed options added by add_argument or from a signature, a parse-time link, "
+        "optional/required sub-commands) and compares, per step and inside Coq, (a) the abstraction of the REAL carried "
+        "state before and after the step (deep snapshot of every parser's and action's __dict__ including each action's "
+        "sub_add_kwargs, all jsonargparse ContextVars, mutable module globals and class attributes; anything the model does "
+        "not explain is a disagreement) with the model state, (b) the kind of answer on the re-used parser and on a fresh "
+        "parser built in a pristine forked process with the model's answers, and (c) equality of the two real answers "
+        "(result / ArgumentError text / exit status, stdout, stderr) with equality of the model's answers. Of the values "
+        "inside an answer only the dataclass value d is modelled; the history independence of all other values is checked "
+        "only by the fresh-vs-reused comparison of the real answers on the generated histories."),
     "level_note": (
         "Partial: the theorems are about the modelled state components and the modelled parser shapes; the per-step state "
         "correspondence (unexplained differences of the deep snapshot count as disagreement) is what argues that nothing "
-        "else is carried, on the generated histories only. Not modelled: values/messages inside answers, default_config_files, "
-        "default_env=True, ActionParser, nested sub-commands, dataclass-in-container sub_add_kwargs['default'] (DESIGN 5.9 "
-        "candidate, not reproduced), threads / several contextvars.Context. The model variant (pinned or repaired at each of "
-        "the three sites) is selected per run by replaying the three refutation witnesses on the implementation and is "
-        "recorded in the evidence (coverage.model_variant). Trusted: Coq kernel/VM, tie/impl/c09_history.py (builder, "
-        "abstraction, forked fresh references), the Gallina printer in tie/props/c09.py, sha256 digests for answer equality, "
-        "presence of the shtab package. No axioms (Print Assumptions: closed under the global context)."),
+        "else is carried, on the generated histories only. Not modelled: values/messages inside answers other than d, "
+        "dataclasses with required fields, partial d values left by a --cfg (generator avoids them), nested class-typed "
+        "parameters (linked_targets propagation), parse_args(defaults=False/env=...), default_config_files, ActionParser, "
+        "nested sub-commands, threads / several contextvars.Context. The model variant (pinned or repaired at each of the "
+        "four sites) is selected per run by replaying the four refutation witnesses on the implementation and is recorded in "
+        "the evidence (coverage.model_variant). Trusted: Coq kernel/VM, tie/impl/c09_history.py (builder, abstraction, "
+        "forked fresh references), the Gallina printer in tie/props/c09.py, sha256 digests for answer equality, presence "
+        "of the shtab package. No axioms (Print Assumptions: closed under the global context)."),
     "technique": ("Rocq proof: frame (read-set) lemma for the step function of a parser state machine by induction on argv "
-                  "and item lists, invariants over histories for the repaired variants, vm_compute witnesses for the three "
+                  "and item lists, invariants over histories for the repaired variants, vm_compute witnesses for the four "
                   "defects; per-step state-and-answer correspondence against the real objects judged inside Coq"),
 }
